@@ -729,32 +729,27 @@ impl JoinOperator {
                                 )
                             })),
                     );
-                    let mut left = false;
-                    let mut right = false;
-                    if let Expr::Column(c) = &f.arguments()[0] {
-                        // A column that is in neither input says nothing about uniqueness
-                        if let Some((path, unique)) =
-                            fields_with_unique_or_primary_key_constraint.get_key_value(c)
-                        {
-                            if path[0] == Join::left_name() {
-                                left = *unique
-                            } else {
-                                right = *unique
-                            }
+                    // Only an equality between a column of the left input and a column of the right
+                    // input relates the two sides (`_RIGHT_.id = _RIGHT_.id` does not)
+                    let side_and_unique = |expr: &Expr| -> Option<(bool, bool)> {
+                        if let Expr::Column(c) = expr {
+                            // A column that is in neither input says nothing about uniqueness
+                            fields_with_unique_or_primary_key_constraint
+                                .get_key_value(c)
+                                .map(|(path, unique)| (path[0] == Join::left_name(), *unique))
+                        } else {
+                            None
                         }
-                    }
-                    if let Expr::Column(c) = &f.arguments()[1] {
-                        // A column that is in neither input says nothing about uniqueness
-                        if let Some((path, unique)) =
-                            fields_with_unique_or_primary_key_constraint.get_key_value(c)
-                        {
-                            if path[0] == Join::left_name() {
-                                left = *unique
-                            } else {
-                                right = *unique
-                            }
+                    };
+                    let (left, right) = match (
+                        side_and_unique(&f.arguments()[0]),
+                        side_and_unique(&f.arguments()[1]),
+                    ) {
+                        (Some((true, l)), Some((false, r))) | (Some((false, r)), Some((true, l))) => {
+                            (l, r)
                         }
-                    }
+                        _ => (false, false),
+                    };
                     (left, right)
                 }
                 function::Function::And => {
